@@ -85,7 +85,7 @@ def run(chk):
     spec = {"None, set()": "path mismatch", "None, self._allowed_methods": "method mismatch"}
     texts = [norm.raw(r.value) for r in rets]
     e = [r for r in rets if _t(r.value) == "None, set()"]
-    m = [r for r in rets if _t(r.value) == "None, self._allowed_methods"]
+    m = [r for r in rets if _t(r.value) in ("None, self._allowed_methods", "None, set(self._allowed_methods)", "None, self._allowed_methods.copy()", "None, frozenset(self._allowed_methods)")]
     if e and PC.has_lit(PC.pc(e[0]), "self._match(request.rel_url.path_safe) is None", True) is not None and len(e) == 1:
         chk.ok("C14.resource", e[0], "Resource.resolve: empty set only when the path does not match")
     else:
